@@ -1,4 +1,5 @@
 import Tx3Model.PlutusData
+import Tx3Proofs.Lemmas.CborRoundtrip
 import Tx3Proofs.Lemmas.Cbor
 
 /-!
@@ -158,3 +159,25 @@ example : tryAsData (.node (.struct 7) [.leaf (.number (2^100))]) = .ok (.constr
   simp [tryAsData, tryAsDataL]; rfl
 
 end Tx3
+
+/-! ## Down to bytes -/
+
+namespace Tx3.PData
+open Tx3.Cbor
+
+/-- **C09, bytes.** A standard reader - the RFC 8949 reader followed by the Plutus Data reader - gets every value
+back from the bytes written for it, provided the item is within what CBOR heads can carry (`wfb`: list and map
+lengths below 2^64; integers beyond 64 bits are written as bignums and byte strings beyond 64 bytes in chunks
+by `specWrite` itself). -/
+theorem C09_bytes_read_write (d : PData) (h : (specWrite d).wfb = true) :
+    (decode (encode (specWrite d))).bind specRead = some d := by
+  rw [decode_encode_of_wfb _ h]
+  exact C09_read_write d
+
+example : (decode (encode (specWrite (.constr 200 [.int 5, .int (2 ^ 70)])))).bind specRead
+    = some (.constr 200 [.int 5, .int (2 ^ 70)]) := by
+  apply C09_bytes_read_write
+  simp [specWrite, specWriteL, Item.wfb, wfbL, natToBytes]
+
+end Tx3.PData
+
